@@ -151,6 +151,8 @@ def check_weighted(spec):
     return Case(W >= 2 or nz < n, ["W=%d" % W, "zeros" if nz < n else "all-positive"], W)
 
 
+# sampler seeds: the usual small ones and values around the 31/32-bit boundaries and beyond (the generators take 64-bit seeds)
+SEEDS = st.one_of(st.integers(0, 2 ** 20), st.sampled_from([2 ** 31 - 1, 2 ** 31, 2 ** 32 - 1, 2 ** 32 + 5, 2 ** 40 + 3]))
 WS = st.sampled_from([1, 2, 2, 3, 4])
 # label containers as datasets hand them out: lists, int64 arrays - and the narrow integer dtypes label files are stored in
 # (class id x dataset size exceeds the range of int8/uint8 for the larger layouts)
@@ -159,13 +161,13 @@ BULK = st.sampled_from(["list", "numpy", "tensor", "numpy:uint8", "numpy:int8", 
 COUNTS = st.one_of(st.lists(st.integers(1, 7), min_size=2, max_size=6), st.lists(st.integers(1, 12), min_size=5, max_size=12))
 BAL = st.fixed_dictionaries({"counts": COUNTS, "key": st.integers(0, 999),
                              "bulk": BULK, "spc": st.one_of(st.none(), st.integers(1, 21)),
-                             "shuffle": st.booleans(), "W": WS, "seed": st.integers(0, 2 ** 20), "epoch": st.integers(0, 50)})
+                             "shuffle": st.booleans(), "W": WS, "seed": SEEDS, "epoch": st.integers(0, 50)})
 SEMI = st.fixed_dictionaries({"n_labeled": st.integers(1, 12), "n_unlabeled": st.integers(1, 12), "key": st.integers(0, 999),
                               "bulk": st.sampled_from(["list", "numpy", "tensor"]), "L": st.integers(1, 4), "U": st.integers(1, 4), "W": WS,
-                              "mode": st.sampled_from(["labeled", "unlabeled", "all"]), "seed": st.integers(0, 2 ** 20),
+                              "mode": st.sampled_from(["labeled", "unlabeled", "all"]), "seed": SEEDS,
                               "epoch": st.integers(0, 50)})
 WEI = st.fixed_dictionaries({"n": st.integers(1, 40), "key": st.integers(0, 999), "zero_frac": st.sampled_from([0.0, 0.3, 0.6]),
-                             "size": st.one_of(st.none(), st.integers(1, 40)), "W": WS, "seed": st.integers(0, 2 ** 20),
+                             "size": st.one_of(st.none(), st.integers(1, 40)), "W": WS, "seed": SEEDS,
                              "epoch": st.integers(0, 50)})
 
 FACETS = [
